@@ -94,6 +94,7 @@ static void op_ci_decint(FILE *out, const char *id, char **a, int n) { ci_dec_co
 
 #include "ops_range.h"
 #include "ops_hash.h"
+#include "ops_file.h"
 
 /* ------------------------------------------------------------------ dispatch */
 
@@ -107,6 +108,12 @@ static struct { const char *name; opfn fn; int forked; } OPS[] = {
     {"HASH", op_hash, 0},
     {"HASHO", op_hash, 0},
     {"HASHBIG", op_hashbig, 0},
+    {"OPEN", op_open, 1},
+    {"META", op_meta, 1},
+    {"OPENM", op_openm, 1},
+    {"READSEQ", op_readseq, 1},
+    {"SCAN", op_scan, 1},
+    {"CHUNKSEQ", op_chunkseq, 1},
     {NULL, NULL, 0}
 };
 
